@@ -212,7 +212,7 @@ def run_tlc(module, cfg, *, workers=None, simulate=None, depth=None, timeout=600
     return res
 
 
-def replay(cases, *, deadline="10s", workers=None, name="replay"):
+def replay(cases, *, deadline="10s", workers=None, name="replay", _retry=False):
     """Run cases through the Go replayer; returns {id: result}."""
     build_harness()
     d = scratch(name)
@@ -232,6 +232,15 @@ def replay(cases, *, deadline="10s", workers=None, name="replay"):
             x = json.loads(line)
             results[x["id"]] = x
     shutil.rmtree(d, ignore_errors=True)
+    # a deadline miss counts only if it is reproducible: on a loaded machine a harmless case can be slow.
+    # The cases that timed out are run again, two at a time, with six times the deadline.
+    late = [c for c in cases if results.get(c["id"], {}).get("timeout")]
+    if late and not _retry:
+        m = re.match(r"(\d+)s", deadline)
+        longer = "%ds" % (int(m.group(1)) * 6 if m else 120)
+        again = replay(late, deadline=longer, workers=2, name=name + "-retry", _retry=True)
+        for c in late:
+            results[c["id"]] = again[c["id"]]
     if len(results) != len({c["id"] for c in cases}):
         raise HarnessError("replayer returned %d results for %d cases" % (len(results), len(cases)))
     return results
